@@ -138,6 +138,15 @@ def rule_a(rep: Report, idx: SourceIndex) -> None:
 	mu = mods.cls('Modules').method('unload')
 	calls = [unparse(n.func) for n in walk_no_nested(mu.node) if isinstance(n, ast.Call)]
 	r.check(any(c.endswith('__loader.unload') for c in calls), 'Modules.unload->loader.unload', mu.where, f'Modules.unload no longer calls the module loader\'s unload ({calls}): entrypoint and symbols of the module stay loaded')
+	# a module that imports the unloaded one keeps nodes and symbols of it, and Modules.load hands a registered module back without looking at its
+	# imports: the dependents have to go with it (load(a); unload(b); transpile(load(a)) fails where a fresh session succeeds)
+	recursive = [n for n in ast.walk(mu.node) if isinstance(n, ast.Call) and unparse(n.func) in ('self.unload', 'self._Modules__unload_dependents', 'self.__unload_dependents')]
+	helpers = [mods.cls('Modules').method(n.func.attr) for n in ast.walk(mu.node) if isinstance(n, ast.Call) and isinstance(n.func, ast.Attribute) and isinstance(n.func.value, ast.Name) and n.func.value.id == 'self' and n.func.attr not in ('unload',)]
+	bodies = [mu.node] + [h.node for h in helpers if h is not None]
+	over_registry = any(isinstance(x, (ast.For, ast.comprehension)) and '__modules' in unparse(x.iter) for b in bodies for x in ast.walk(b))
+	by_imports = any(isinstance(x, ast.Attribute) and x.attr in ('imports', 'import_path') for b in bodies for x in ast.walk(b))
+	cascades = any(isinstance(n, ast.Call) and unparse(n.func) == 'self.unload' for b in bodies for n in ast.walk(b))
+	r.check(cascades and over_registry and by_imports, 'Modules.unload:dependents-unloaded', mu.where, 'Modules.unload removes the named module only: a loaded module that imports it keeps its nodes and symbols and is handed back by the next Modules.load as it is — load(a) [a imports b]; unload(b); transpile(load(a)) fails with UnresolvedSymbol, a fresh session succeeds (the output of a module depends on what the process unloaded before); the modules that import the unloaded one must be unloaded with it')
 	ml = prov.cls('ModuleLoader')
 	lu = ml.method('unload')
 	lcalls = [unparse(n.func) for n in walk_no_nested(lu.node) if isinstance(n, ast.Call)] if lu else []
